@@ -99,12 +99,14 @@ def resample_to_approx_dt(asig, target_dt=0.01, even=True):
     from scipy.signal import resample
     factor = asig.dt / target_dt
     if factor == 1:
-        pass
+        new_npts = asig.npts
     elif factor > 1:
         factor = int(np.ceil(factor))
+        new_npts = factor * asig.npts
     else:
-        factor = 1 / np.floor(1 / factor)
-    new_npts = factor * asig.npts
+        step = np.floor(1 / factor)
+        factor = 1 / step
+        new_npts = asig.npts / step  # not factor * npts: fl(1 / step) * npts can fall just below a whole number (step = 49)
     if even:
         new_npts = 2 * int(new_npts / 2)
     else:
